@@ -14,7 +14,7 @@ int64_t last_now;
 int64_t cfg_ttl = 100, cfg_tick = 5;
 // the history, for trace extraction
 extern "C" {
-int64_t  h_cfg_ttl, h_cfg_tick;
+int64_t  h_cfg_ttl, h_cfg_tick, h_mlf4 = 4;
 uint64_t h_op[KSTEPS], h_k[KSTEPS], h_v[KSTEPS], h_a[KSTEPS], h_pk[KSTEPS];
 int64_t  h_ttl[KSTEPS], h_now[KSTEPS];
 }
@@ -36,6 +36,15 @@ extern "C" int harness()
 #endif
     h_cfg_ttl  = cfg_ttl;
     h_cfg_tick = cfg_tick;
+#if PROP == 8 || PROP == 0
+    // C08 quantifies over every finite positive max_load_factor: one below, at and above 1 (the K2 step has it fully symbolic)
+    {
+        uint8_t m = nondet_u8();
+        __vf_assume(m < 3);
+        cfg_mlf = m == 0 ? 0.25f : (m == 1 ? 1.0f : 4.0f);
+        h_mlf4  = m == 0 ? 1 : (m == 1 ? 4 : 16);
+    }
+#endif
     DECL_C(c);
     Abs     pre, post;
     int64_t now = 0;
